@@ -74,3 +74,18 @@ package encoding
 //@   requires sn != nil
 //@   ensures implies(result1, val == node_module(sn) + ":" + result0)
 //@   ensures implies(!result1, result0 == "")
+
+// XML repeats the element of a list or leaf-list for every entry; the reader merges them into the FIRST node of that
+// name. The remembered position of that node is a position in the output built so far.
+//@ func mergeRepeated
+//@   requires sn != nil && forall(i, 0, len(children), children[i] != nil)
+//@   modifies *
+//@   ensures len(result) <= len(children)
+//@   loop 0 invariant isfresh(out) && len(out) <= loopidx + 1 && forallstr(k, implies(inmap(first, k), 0 <= first[k] && first[k] < len(out)))
+//@   loop 0 invariant forall(i, 0, len(out), out[i] != nil) && forall(i, 0, len(looprange), looprange[i] != nil)
+
+// An integer value is written as the JSON number with the same DECIMAL value.
+//@ func jsonInteger
+//@   nopanic
+//@   callsite @ParseInt callarg1 == 10 && callarg0 == value
+//@   callsite @ParseUint callarg1 == 10 && callarg0 == value
